@@ -99,7 +99,7 @@ class C08(Prop):
     assumptions = ['vkit/simdist all_reduce semantics (ascending-rank summation in the tensor dtype); result comparisons are bit-exact',
                    'every rank issues flushes at the same logical positions of the global call list']
     examples = {'quick': 250, 'thorough': 1500}
-    shards = {'quick': 4, 'thorough': 16}
+    shards = {'quick': 8, 'thorough': 16}
     shrink_budget_s = {'quick': 20.0, 'thorough': 120.0}
     required_labels = {'quick': ['nontrivial=True', 'shared_bucket=True', 'oversized=True', 'equal_size_groups=True', 'mixed_dtype=True'],
                        'thorough': ['nontrivial=True', 'shared_bucket=True', 'oversized=True', 'equal_size_groups=True', 'mixed_dtype=True']}
